@@ -19,8 +19,11 @@ def readyUpto (s : St) : Nat :=
 /-- retired workers the replace thread has still to replace -/
 def pending (s : St) : List Nat := (match s.rpc with | .join wid => [wid] | _ => []) ++ s.replQ.filterMap id
 
-/-- the worker(s) with this wid have left their loop for good (exited, or — `Cfg.joinTimeout` — only `end()` left) -/
+/-- the worker(s) with this wid have left their loop for good (exited, or only `end()` left: `.ending`) -/
 def ExitedAll (l : List Worker) (wid : Nat) : Prop := ∀ w ∈ l, w.wid = wid → gone w.pc = true
+
+/-- the worker(s) with this wid have exited (`end()` has run, the process has an exit code) -/
+def ExitedStrict (l : List Worker) (wid : Nat) : Prop := ∀ w ∈ l, w.wid = wid → w.pc = .exited
 
 structure LInv (s : St) : Prop where
   nodup : (s.workers.map (·.wid)).Nodup
@@ -42,14 +45,21 @@ structure LInv (s : St) : Prop where
   pend : ∀ wid ∈ pending s, wid ∈ s.procs ∧ ExitedAll s.workers wid
   -- the joins of `__exit__` wait for the exit only without a join timeout
   joined : ∀ i, s.cpc = .exitJoin i → ∀ j < i, ∀ wid, s.procs[j]? = some wid → s.cfg.joinTimeout = false →
-    ExitedAll s.workers wid
-  done : s.cpc = .done → ∀ wid ∈ s.procs, s.cfg.joinTimeout = false → ExitedAll s.workers wid
+    ExitedStrict s.workers wid
+  done : s.cpc = .done → ∀ wid ∈ s.procs, s.cfg.joinTimeout = false → ExitedStrict s.workers wid
 
 theorem ExitedAll_upd {l : List Worker} {wid : Nat} {w w' : Worker} (h : ExitedAll l wid) (hw : w ∈ l)
     (hne : gone w.pc = true → gone w'.pc = true) (hwid : w'.wid = w.wid) : ExitedAll (upd w.wid w' l) wid := by
   intro x hx hxw
   rcases mem_upd.1 hx with ⟨rfl, _⟩ | ⟨hx', _⟩
   · exact hne (h w hw (by rw [← hwid, hxw]))
+  · exact h x hx' hxw
+
+theorem ExitedStrict_upd {l : List Worker} {wid : Nat} {w w' : Worker} (h : ExitedStrict l wid) (hw : w ∈ l)
+    (hne : w.pc ≠ .exited) (hwid : w'.wid = w.wid) : ExitedStrict (upd w.wid w' l) wid := by
+  intro x hx hxw
+  rcases mem_upd.1 hx with ⟨rfl, _⟩ | ⟨hx', _⟩
+  · exact absurd (h w hw (by rw [← hwid, hxw])) hne
   · exact h x hx' hxw
 
 theorem not_gone_imp {w w' : Worker} (h : gone w.pc = false) : gone w.pc = true → gone w'.pc = true := by
@@ -137,9 +147,9 @@ theorem LInv_stepW {s s' : St} {wid : Nat} (hI : LInv s) (h : stepW s wid = some
       · exact he
       · exact absurd hxw hne
   · intro i hi j hj k hk hjt; rw [hf.cpc] at hi; rw [hf.procs] at hk; rw [hf.cfg] at hjt
-    exact hex k (hI.joined i hi j hj k hk hjt)
+    rw [hf.workers]; exact ExitedStrict_upd (hI.joined i hi j hj k hk hjt) hwm hn2 hwid
   · intro hd k hk hjt; rw [hf.cpc] at hd; rw [hf.procs] at hk; rw [hf.cfg] at hjt
-    exact hex k (hI.done hd k hk hjt)
+    rw [hf.workers]; exact ExitedStrict_upd (hI.done hd k hk hjt) hwm hn2 hwid
 
 
 /-- consumer pcs after `__enter__` / `until_all_ready` -/
@@ -164,8 +174,8 @@ theorem LInv_frame {s s' : St} (hI : LInv s) (h1 : s'.cfg = s.cfg) (h2 : s'.work
     (hc : s'.cpc = s.cpc ∨ (post s.cpc = true ∧ post s'.cpc = true ∧ (s.rAlive = true → inCall s'.cpc = true) ∧
       ((s'.cpc = .rInitSet ∨ s'.cpc = .rStart) → s.cfg.factory = true) ∧
       (∀ i, s'.cpc = .exitJoin i → ∀ j < i, ∀ wid, s.procs[j]? = some wid → s.cfg.joinTimeout = false →
-        ExitedAll s.workers wid) ∧
-      (s'.cpc = .done → ∀ wid ∈ s.procs, s.cfg.joinTimeout = false → ExitedAll s.workers wid))) : LInv s' := by
+        ExitedStrict s.workers wid) ∧
+      (s'.cpc = .done → ∀ wid ∈ s.procs, s.cfg.joinTimeout = false → ExitedStrict s.workers wid))) : LInv s' := by
   have hp := pending_congr h5 h7
   rcases hc with hc | ⟨p1, p2, c1, c2, c3, c4⟩
   · have hr := readyUpto_congr hc h1
@@ -239,16 +249,15 @@ theorem not_post_contra {c : CPc} (h : post c = true) :
   cases c <;> simp [post] at h ⊢
 
 theorem WInv_start {cfg : Cfg} {w : Worker} (h : WInv cfg w) (hpc : w.pc = .notStarted) : WInv cfg { w with pc := .bfClear } := by
-  obtain ⟨h1, h2, h3, h4, h5, h6, h7⟩ := h
+  obtain ⟨h1, h2, h3, h4, h5, h6⟩ := h
   simp only [hpc] at h1 h2
-  refine ⟨?_, ?_, ?_, ?_, ?_, ?_, ?_⟩ <;> dsimp only
+  refine ⟨?_, ?_, ?_, ?_, ?_, ?_⟩ <;> dsimp only
   · exact h1
   · exact h2
   · exact h3
   · intro q hq; exact ⟨(h4 q hq).1, trivial⟩
   · exact h5
   · intro _; exact h6 (Or.inl hpc)
-  · intro hh; cases hh
 
 theorem LInv_stepR {s s' : St} (hI : LInv s) (h : stepR s = some s') : LInv s' := by
   unfold stepR at h
